@@ -46,7 +46,7 @@ fn main() {
         let mut engine = Engine::load(&[&a[4]]).unwrap_or_else(|e| die(&e.to_string()));
         let cond = eng::random_condition(&mut engine, &mut rng0, false);
         let engine = Arc::new(engine);
-        let settings = digest_str(&format!("{:?}", engine.condition));
+        let settings = digest_str(&eng::settings_snapshot(&engine));
         log.lock().unwrap().push(json!({"ev": "snap", "settings": settings, "round": round, "cond": cond}));
         let k = [2usize, 4, 8, 16][round % 4];
         let barrier = Arc::new(Barrier::new(k));
@@ -96,7 +96,7 @@ fn main() {
                         Ok(Err(e)) => ("error".to_string(), e),
                         Err(p) => ("panic".to_string(), p),
                     };
-                    let after = digest_str(&format!("{:?}", engine.condition));
+                    let after = digest_str(&eng::settings_snapshot(&engine));
                     let mut l = log.lock().unwrap();
                     let tk = ticket.fetch_add(1, Ordering::SeqCst);
                     // both call styles must give the same samples: the key for the table is the utterance alone
